@@ -65,7 +65,9 @@ RULE = ("(A) class bodies generated as source and exec'd in a fresh module: 0-5 
         "shape (values, callback traces, exceptions, fault injection), ==/!=/</<=/>/>= matrix, hash "
         "outcome and partition, repr, assignment and deletion per field, evolve, asdict/astuple, "
         "copy/deepcopy/pickle of fully-set instances, histories hash -> [change a hash field] -> copy/deepcopy/pickle "
-        "(fields kept, copy hashes its own fields), fields(); "
+        "(fields kept, copy hashes its own fields), copies of instances holding NOTHING/None/False/0/empty containers, "
+        "fields(); (B2) all 120 two-base hierarchies Leaf(Hooked, Data)/Leaf(Data, Hooked) (unslotted attrs base with a "
+        "generated hook __setattr__ x slotted attrs base x 5 leaf kinds x api) built with slots on and off; "
         "distinct = distinct recipe / (seed,index); non-trivial = body with a closure user, a cached "
         "property, a base or a field / specification with at least one field")
 EXTRA_TRUSTED = [
@@ -238,6 +240,11 @@ class DAH:
 '''),
 }
 MIXINS = {
+    "DAV": ("DAV", '''
+@attr.s(on_setattr=attr.setters.validate)
+class DAV:
+    h = attr.ib(default=5, validator=_okv)
+'''),
     "MixE": ("MixE", '''
 class MixE:
     __slots__ = ()
@@ -265,7 +272,7 @@ class HKS:
 PRIMARY_WEIGHTS = [("none", 5), ("SA", 4), ("SAnw", 2), ("DA", 2), ("PS", 3), ("PSw", 2), ("PSe", 2), ("PD", 2),
                    ("PSstr", 2), ("EXC", 1), ("SAH", 3), ("SAV", 2), ("SAV_P", 2), ("SAV_PD", 1), ("SA_Psh", 2),
                    ("SA_PshD", 1), ("SAC", 3), ("PG", 2), ("PGD", 1), ("DAH", 1)]
-MIXIN_WEIGHTS = [("none", 10), ("MixE", 2), ("MixD", 1), ("HK", 2), ("HKS", 2)]
+MIXIN_WEIGHTS = [("none", 10), ("MixE", 2), ("MixD", 1), ("HK", 2), ("HKS", 2), ("DAV", 4)]
 USER_KINDS = ["func", "cm", "sm", "prop:get", "prop:set", "prop:del", "cached", "getattr", "descr", "wrapped", "lambda"]
 FILLER_KINDS = ["func", "cm", "sm", "prop", "cached", "plain", "nested", "descr", "getattr", "hook_own", "cached"]
 
@@ -301,6 +308,8 @@ def gen_recipe(rng):
         pool += ["s1", "s1"]
     if prim == "PSstr":
         pool += ["ab", "ab"]
+    if mix == "DAV":
+        pool += ["h", "h"]
     rng.shuffle(pool)
     r["fields"] = list(dict.fromkeys(pool[:rng.choice([0, 1, 1, 2, 2, 3])]))
     if prim in ("SA_Psh", "SA_PshD") and "a" not in r["fields"]:
@@ -420,7 +429,7 @@ def member_lines(m):
 
 
 def field_default(name):
-    return {"x": 1, "y": 2, "z": 3, "a": 20, "s1": 30, "ab": 40}[name]
+    return {"x": 1, "y": 2, "z": 3, "a": 20, "s1": 30, "ab": 40, "h": 50}[name]
 
 
 def source_of(r):
@@ -838,8 +847,10 @@ def _run_body(r, mod):
             2 + bi, slots_t, b(bc.__dict__.get("__weakref__", None) is not None), b("__dict__" in bc.__dict__),
             "None" if os_ is None else "(Some %s)" % b(bool(os_)), b(bc in orig.__bases__),
             b("__attrs_init_subclass__" in bc.__dict__), lay_t))
-        if base_fields is None and "__attrs_attrs__" in bc.__dict__:
-            base_fields = list(attr.fields(bc))
+        if "__attrs_attrs__" in bc.__dict__:
+            # every attrs lineage contributes (two attrs bases); the order of inherited names is immaterial here
+            base_fields = (base_fields or []) + [a for a in attr.fields(bc)
+                                                 if a.name not in [x.name for x in (base_fields or [])]]
     base_fields = base_fields or []
     own = list(r["fields"])
     inherited = [a.name for a in base_fields if a.name not in own]
@@ -1208,6 +1219,20 @@ def observe_build(cut, shape_seed):
                 obs["pickle"] = [r[0], after(r[1])] if r[0] == "ok" else r
                 if r[0] == "ok" and stable:
                     obs["hashkept:pickle"] = hash_kept(r[1])
+                # field values that are falsy / sentinels (attrs.NOTHING in-band, None, False, 0, empty containers)
+                specials = [attr.NOTHING, None, False, 0, (), [], {}, ""]
+                sx = fresh()
+                for k_, a in enumerate(attr.fields(cls)):
+                    object.__setattr__(sx, a.name, specials[(shape_seed + k_) % len(specials)])
+                sbefore = _state(cls, sx)
+
+                def after_special(res):
+                    return [type(res) is cls, _outcome(lambda: _state(cls, res) == sbefore), _state(cls, res),
+                            _outcome(lambda: g.js_val(res == sx))]
+                for opname, opf in (("copy", copy.copy), ("deepcopy", copy.deepcopy),
+                                    ("pickle", lambda o: pickle.loads(pickle.dumps(o)))):
+                    r = _outcome(lambda: opf(sx))
+                    obs["special:" + opname] = [r[0], after_special(r[1])] if r[0] == "ok" else r
                 # histories: the instance is hashed BEFORE it is copied (optionally a hash field is changed
                 # in between): the copy must answer the hash of ITS OWN field values
                 if _outcome(lambda: hash(inst))[0] == "ok":
@@ -1285,7 +1310,7 @@ def meta_case(seed, index):
         # slots through setattr (hooks, frozen: C10's K5 region) - compare only what both builds can do, and of
         # that only whether the copy answers the hash of its own fields
         for o in (oS, oD):
-            for l in [l for l in o if l.split(":")[0] in ("copy", "deepcopy", "pickle", "hashkept")]:
+            for l in [l for l in o if l.split(":")[0] in ("copy", "deepcopy", "pickle", "hashkept", "special")]:
                 del o[l]
         for l in sorted(set(oS) | set(oD)):
             if l.startswith("hist:"):
@@ -1305,7 +1330,7 @@ def meta_case(seed, index):
         if da != dd:
             differing[l] = {"slots": a, "dict": d}
     kinds = sorted(set(l.split(":")[0] for l in differing))
-    ser = [k for k in kinds if k in ("copy", "deepcopy", "pickle", "hashkept", "hist")]
+    ser = [k for k in kinds if k in ("copy", "deepcopy", "pickle", "hashkept", "hist", "special")]
     ser_labels = sorted(l for l in differing if l.split(":")[0] in ser)
 
     def _ser_outcomes(side):
@@ -1358,6 +1383,115 @@ def meta_case(seed, index):
 
 
 # --------------------------------------------------------------------------------------
+# part B2: two attrs bases (one unslotted with a generated hook __setattr__, one slotted), slots vs dict
+
+TWO_BASE_SPACE = [dict(hook=h, leaf=l, order=o, api=a, data_slots=n)
+                  for h in ("field-user", "class-validate", "class-convert")
+                  for l in ("redefine", "noop", "nofields", "ownhook", "otherfield")
+                  for o in ("HD", "DH") for a in ("attrs", "define") for n in (1, 2)]
+
+
+def _two_base_build(r, slots):
+    from attr import setters
+    log = []
+
+    def hook(i, a, v):
+        log.append(["hook", a.name, repr(v)])
+        return v
+
+    def val(i, a, v):
+        log.append(["val", a.name, repr(v)])
+
+    def conv(v):
+        log.append(["conv", repr(v)])
+        return v
+    if r["hook"] == "field-user":
+        Hooked = attr.s(type("Hooked", (), {"x": attr.ib(default=0, on_setattr=hook)}))
+    elif r["hook"] == "class-validate":
+        Hooked = attr.s(on_setattr=setters.validate)(type("Hooked", (), {"x": attr.ib(default=0, validator=val)}))
+    else:
+        Hooked = attr.s(on_setattr=setters.convert)(type("Hooked", (), {"x": attr.ib(default=0, converter=conv)}))
+    dbody = {"a": attr.ib(default=10)}
+    if r["data_slots"] == 2:
+        dbody["b"] = attr.ib(default=11)
+    Data = attr.s(slots=True)(type("Data", (), dbody))
+    bases = (Hooked, Data) if r["order"] == "HD" else (Data, Hooked)
+    kwargs = {"slots": slots}
+    names = {"redefine": ["x"], "noop": ["x"], "nofields": [], "ownhook": ["y"], "otherfield": ["z"]}[r["leaf"]]
+    if r["leaf"] == "noop":
+        kwargs["on_setattr"] = setters.NO_OP
+    body, anns = {}, {}
+    for n in names:
+        kw = {"default": 1}
+        if r["leaf"] == "ownhook":
+            kw["on_setattr"] = hook
+        if r["api"] == "attrs":
+            body[n] = attr.ib(**kw)
+        else:
+            body[n] = attrs.field(**kw)
+            anns[n] = int
+    if anns:
+        body["__annotations__"] = anns
+    raw = type("Leaf", bases, body)
+    cls = (attr.s if r["api"] == "attrs" else attrs.define)(**kwargs)(raw)
+    return cls, Hooked, log
+
+
+def _two_base_observe(r, slots):
+    try:
+        cls, Hooked, log = _two_base_build(r, slots)
+    except Exception as e:
+        return {"def": type(e).__name__}
+    obs = {"def": "ok"}
+    sa = cls.__setattr__
+    obs["setattr"] = ("object" if sa is object.__setattr__ else
+                      "own" if "__setattr__" in cls.__dict__ else
+                      "hooked-base" if sa is Hooked.__dict__.get("__setattr__") else "other")
+    obs["own_setattr_flag"] = repr(cls.__dict__.get("__attrs_own_setattr__", "absent"))
+    obs["fields"] = [a.name for a in attr.fields(cls)]
+
+    def step(fn):
+        del log[:]
+        r_ = _outcome(fn)
+        return [r_[0] if r_[0] != "ok" else "ok", list(log)] if r_[0] != "raised" else [r_[1], list(log)]
+    inst = None
+
+    def mk():
+        nonlocal inst
+        inst = cls()
+    obs["init"] = step(mk)
+    if inst is not None:
+        for n in obs["fields"]:
+            obs["assign:" + n] = step(lambda: setattr(inst, n, 5))
+        obs["values"] = [[n, repr(getattr(inst, n, "<unset>"))] for n in obs["fields"]]
+        obs["repr"] = _outcome(lambda: repr(inst))
+        obs["evolve"] = step(lambda: attr.evolve(inst, a=3))
+    return obs
+
+
+def two_base_case(r):
+    oS, oD = _two_base_observe(r, True), _two_base_observe(r, False)
+    for k in [k for k in linecache.cache if k.startswith("<attrs generated")]:
+        linecache.cache.pop(k, None)
+    # which __setattr__ is resolved / the bookkeeping flag are facts for the signature, behaviour is compared
+    labels = sorted((set(oS) | set(oD)) - {"setattr", "own_setattr_flag"})
+    triples, differing = [], {}
+    for l in labels:
+        a, d = oS.get(l, "<absent>"), oD.get(l, "<absent>")
+        da, dd = _digest(a), _digest(d)
+        triples.append("(%s, %d%%Z, %d%%Z)" % (q(l), da, dd))
+        if da != dd:
+            differing[l] = {"slots": a, "dict": d}
+    sig = {"kind": "slots-dict-disagree", "family": "two-bases", "order": r["order"], "hook": r["hook"], "leaf": r["leaf"],
+           "api": r["api"], "differs": "+".join(sorted(set(l.split(":")[0] for l in differing))),
+           "setattr_slots": oS.get("setattr"), "setattr_dict": oD.get("setattr")}
+    inp = dict(r, family="meta2")
+    return Case("(CMeta %s)" % lst(triples), inp, {"differing": differing, "slots_build": oS if differing else None,
+                                                  "facts": {"variant": "two-bases"}},
+                sig=sig, nontrivial=True, key="meta2:" + json.dumps(r, sort_keys=True))
+
+
+# --------------------------------------------------------------------------------------
 # driver interface
 
 _dist = Counter()
@@ -1379,6 +1513,9 @@ def generate(tier, seed):
             _dist["member " + m["kind"]] += 1
         if len(cs) > 1:
             _dist["body property cases"] += 1
+    for r in TWO_BASE_SPACE:
+        cases.append(two_base_case(r))
+        _dist["meta two-bases"] += 1
     n_meta = 500 if tier == "quick" else 7000
     for k in range(n_meta):
         c = meta_case(seed, k)
@@ -1396,6 +1533,8 @@ def rerun(inp):
     fam = inp.get("family")
     if fam == "meta":
         return meta_case(inp["seed"], inp["index"])
+    if fam == "meta2":
+        return two_base_case({k: v for k, v in inp.items() if k != "family"})
     if fam == "body":
         return run_body(inp)[0]
     if fam == "body-post":
